@@ -55,7 +55,7 @@ CONFIGS = {
     "allon": ("gnu++17",
               D(ENABLE_COMMENTS=1, ENABLE_NAN=1, ENABLE_INFINITY=1,
                 SLOT_ID_SIZE=4, STRING_LENGTH_SIZE=4, AUTO_SHRINK=0,
-                USE_DOUBLE=0),
+                USE_DOUBLE=0, DEBUG=1),
               STD_DRIVERS),
     # the four quick configurations cover all four combinations of
     # USE_DOUBLE x USE_LONG_LONG (default 1/1, small 0/0, allon 0/1,
